@@ -408,12 +408,13 @@ var strategies = []string{"sequential", "", "random", "round-robin", "least-conn
 func TestC30(t *testing.T) {
 	r := lib.Start(t, "C30")
 	defer r.Finish()
-	r.Rule("sequential history = fresh StrategyManager, one route (strategy in {sequential, default, random, round-robin, least-connections, lowest-latency}, 1-6 backend entries drawn from 3 accepting loopback listeners, 3 refusing reserved ports and the refusing default port 25565, each in spellings 127.0.0.1/localhost/LOCALHOST/LocalHost, with/without :25565, so exact duplicates, case spellings and default-port spellings occur), then 1-8 steps open-a-connection / close-a-random-open-one, one at a time, through the real lite.Forward; plus a family with a backend template that substitutes to an unparseable address. concurrent run = 1-32 connections opened at once on one shared StrategyManager (random / round-robin / least-connections), half closed, rest closed. hostile history = 2-5 entries (+ duplicate) whose kinds are drawn per position from {healthy, refusing, dial TIMES OUT (loopback port whose SYNs the kernel drops, configured dial timeout 200 ms), accepts-then-closes, accepts-never-answers} (a third of the lists start with a timing-out backend), all six strategies, then 1-4 steps of login attempt (lite.Forward) / status attempt (lite.ResolveStatusResponse, ping cache on or off) / close, same per-attempt oracle decided on the recorded try log. churn round = 1-3 goroutines opening+closing 10-69 short connections each to one backend (three spellings) while 1-6 goroutines each open one connection to it after a PRNG-chosen spin and hold it, all barrier-released, through TrackConnection (3/4) or IncrementConnection (1/4); at the quiescent point the per-backend count must equal the held connections and least-connections must prefer the backend with fewer. distinct = distinct (strategy, backend list, step script) / churn parameters; non-trivial = >= 2 entries or >= 2 steps")
+	r.Rule("sequential history = fresh StrategyManager, one route (strategy in {sequential, default, random, round-robin, least-connections, lowest-latency}, 1-6 backend entries drawn from 3 accepting loopback listeners, 3 refusing reserved ports and the refusing default port 25565, each in spellings 127.0.0.1/localhost/LOCALHOST/LocalHost, with/without :25565, so exact duplicates, case spellings and default-port spellings occur), then 1-8 steps open-a-connection / close-a-random-open-one, one at a time, through the real lite.Forward; plus a family with a backend template that substitutes to an unparseable address. concurrent run = 1-32 connections opened at once on one shared StrategyManager (random / round-robin / least-connections), half closed, rest closed. hostile history = 2-5 entries (+ duplicate) whose kinds are drawn per position from {healthy, refusing, dial TIMES OUT (loopback port whose SYNs the kernel drops, configured dial timeout 200 ms), accepts-then-closes, accepts-never-answers} (a third of the lists start with a timing-out backend), all six strategies, then 1-4 steps of login attempt (lite.Forward) / status attempt (lite.ResolveStatusResponse, ping cache on or off) / close, same per-attempt oracle decided on the recorded try log. churn round = 1-3 goroutines opening+closing 10-69 short connections each to one backend (three spellings) while 1-6 goroutines each open one connection to it after a PRNG-chosen spin and hold it, all barrier-released, through TrackConnection (3/4) or IncrementConnection (1/4); at the quiescent point the per-backend count must equal the held connections and least-connections must prefer the backend with fewer. pipeline history = 2-4 entries whose kinds are drawn per position from {healthy, refusing, accepts+reads the handshake+RESETS (SO_LINGER 0), accepts+reads the handshake+closes, resets at accept, reads handshake and login start then resets} (half the lists start with a faulting one), all six strategies, 2-5 steps of open / close where the client sends in one write the handshake alone, handshake+login start, or handshake+login start+1-3 more frames, over the in-memory client connection (natural race, or with lite.Forward's request for the client's buffered bytes held until the backend that got this attempt's handshake has done its fault) or a real loopback TCP client connection; pipeline-concurrent round = 1-4 keepers holding pipelined connections to healthy backends while 2-6 barrier-released churners each open and close 2-6 pipelined connections to a route of faulting backends on the same StrategyManager. distinct = distinct (strategy, backend list, step script) / churn parameters; non-trivial = >= 2 entries or >= 2 steps")
 	r.Assume("failed dials are observed through Gate's 'failed to try backend' log events (backendAddr value) via an injected logr sink; successful ones additionally by the listeners' accept counters")
 	r.Assume("a forwarded connection is 'open' from the moment the backend's greeting byte reaches the client (lite.Forward pipes only after TrackConnection) until lite.Forward returned after the client closed")
 	r.Assume("a forwarded connection to a backend that sends nothing (or closes at once) is 'open' from Gate's own 'forwarding connection' event (logged after TrackConnection) until lite.Forward returned after the client closed")
 	r.Assume("the per-backend active-connection count is read at quiescent points through the exported accessor StrategyManager.GetOrCreateCounter (the counter object least-connections reads) and through the least-connections choice of the exported GetNextBackend")
 	r.Assume("dial timeouts are stimuli: a loopback listener with backlog 0 and a full accept queue (verified by a probe that timed out); the verdict is taken from the try log under a 30 s watchdog")
+	r.Assume("a connection whose dial succeeded but whose pipelined client bytes could not be flushed to the backend (Gate's 'failed to empty client buffer' event) was never forwarded: lite.Forward has returned, it is not open; a connection forwarded to a backend that resets or closes is brought to its end (client closes, lite.Forward returned) before the next quiescent point")
 	r.Assume("two entries are the same backend iff equal after lower-casing the host and defaulting the port to 25565 (Gate's own canonicalBackendAddress); DNS aliases are different backends")
 
 	w, err := newWorld(r, true)
@@ -767,6 +768,9 @@ func TestC30(t *testing.T) {
 
 	// ---- concurrent churn on the per-backend counters ---------------------------------------------
 	churnFamily(r)
+
+	// ---- clients pipelining behind the handshake x backends faulting after the dial ----------------
+	pipelineFamily(r)
 
 	r.Set("per_backend_count_comparisons_sequential", perBackendT)
 	r.Set("attempts", attempts)
